@@ -39,13 +39,17 @@ def run(ctx):
     forks = ba.calls(anchors.FORK_START)
     t_taint = taint(SS, src_place=lambda p: place_fields(p)[-1:] == ["builder::BuildJob.t"], mode="direct", through=re.compile(r"std::path::Path::new"))
     ex_all = existence_tests(SS, t_taint)
+    # a test one side of which cannot continue (the panic side of an assert!/debug_assert! restating what is known) decides nothing
+    _rets = ba.returns()
+    ex_all = [e for e in ex_all if all(ba.path([x], _rets, incl=True) is not None for x in (e[1], e[2]))]
     ex = [(sw, t_t, f_t, kind) for (sw, t_t, f_t, kind) in ex_all if z1 and ba.dominates(sw, z1[0])]
     if len(ex) > 1:
         # several tests of the target's presence precede the build (the override detection asks too): the guard is the one
         # whose exists-side goes on to the directory test
         ex = [e for e in ex if any(ba.edge_dominates((e[0], e[1]), sw) for (sw, _, _, _) in ba.switches_on_call(r"std::path::Path::is_dir"))]
-    if not ctx.ob("R11.1", "%s|guard-exists-test" % SS.key, len(ex) == 1, where=SS.span, detail="%d exists(t) tests dominate zap_deps1" % len(ex)):
-        return
+    if len(ex) != 1:
+        return guard_by_truth_assignment(ctx, prog, SS, ex_all, z1, fd, forks)
+    ctx.ob("R11.1", "%s|guard-exists-test" % SS.key, True, where=SS.span, detail="%d exists(t) tests dominate zap_deps1" % len(ex))
     E, E_t, E_f, E_kind = ex[0]
     # ---- R11.10 (F-Y): a dangling symlink is a file the user made, too
     ctx.rule("R11.10", "the existence test of the leave-alone guard does not follow symbolic links (lstat / symlink_metadata / the recorded-stamp reader), so that a user's dangling symlink counts as an existing file redo did not produce")
@@ -88,9 +92,11 @@ def run(ctx):
            (ba.edge_dominates((E, E_t), sw) and any(ba.edge_dominates((d[0], d[2]), sw) for d in isdir))]
     gen = [(sw, t_t, f_t) for (sw, t_t, f_t, cbb) in ba.switches_on_call(r"state::File::is_generated") if any(ba.edge_dominates((o[0], o[2]), sw) for o in ovr)]
     ok = len(isdir) == 1 and len(ovr) >= 1 and len(gen) == 1
-    if not ctx.ob("R11.1", "%s|guard-nesting" % SS.key, ok, where=ctx.where(SS, E),
-                  detail="exists -> !is_dir -> (is_override || !is_generated) nested as expected" if ok else "guard structure not recognised: isdir=%d override=%d generated=%d" % (len(isdir), len(ovr), len(gen))):
-        return
+    if not ok:
+        # not written as the nested `exists && !dir && (override || !generated)`: decide the same facts by truth assignment
+        return guard_by_truth_assignment(ctx, prog, SS, ex_all, z1, fd, forks, dir_sw=[(sw, t_t, f_t) for (sw, t_t, f_t, cbb) in isdir_all], e_kind=E_kind)
+    ctx.ob("R11.1", "%s|guard-nesting" % SS.key, ok, where=ctx.where(SS, E),
+           detail="exists -> !is_dir -> (is_override || !is_generated) nested as expected")
     O = ovr[0]
     G = gen[0]
     # From here on the path rules run over *feasible* paths (core.FAL): when the decision part of start_self is a helper
@@ -153,6 +159,16 @@ def run(ctx):
     ok = all(fa.dominates(E, x) for x in bad_targets) and bool(forks)
     ctx.ob("R11.1", "%s|build-steps-dominated-by-guard" % SS.key, ok, where=ctx.where(SS, E), detail="zap_deps1, find_do_file and the fork are all dominated by the guard")
 
+    _r11_rest(ctx, prog, SS, E)
+
+
+def _r11_rest(ctx, prog, SS, E):
+    ba = BA.of(SS)
+    fa = FAL.of(SS)
+    muts = [i for i in ba.all_calls() if is_mutator_call(SS.blocks[i]["term"])]
+    z1 = ba.calls(r"state::File::zap_deps1")
+    fd = ba.calls(r"paths::find_do_file")
+    forks = ba.calls(anchors.FORK_START)
     # ---- R11.2
     # (the result of detect_override may reach its test through a local: `let overridden = sf.is_override || detect_override(..)`)
     det = common.switches_on_call_value(SS, r"state::Stamp::detect_override")
@@ -267,6 +283,21 @@ def run(ctx):
            detail="the stat of the target precedes the callback and is handed to start_self" if ok else "the pre-build stat is missing, late, or not the one passed on")
     mods = rba.calls(r"std::fs::Metadata::modified")
     ok = any(common.role_roots(R, op_local(R.blocks[m]["term"]["args"][0]), roles["before_t"]) for m in mods) if roles["before_t"] else False
+    if not ok and roles["before_t"]:
+        # the comparison written with combinators (`before_t.as_ref().map_or(true, |b| .. b.modified() ..)`): the pre-build
+        # stat is then the receiver of the call that takes the closure, or one of the closure's captured values
+        from core import closure_sites
+        inner = {k for k, b_ in prog.bodies.items() if k.startswith(R.key + "::{closure") and BA.of(b_).calls(r"std::fs::Metadata::modified")}
+        for (bb_, j_, dl, ck, ops) in closure_sites(R):
+            if not any(k == ck or k.startswith(ck + "::") for k in inner):
+                continue
+            cand = [op_local(o) for o in ops if op_local(o) is not None]
+            for c_ in rba.all_calls():
+                tt = R.blocks[c_]["term"]
+                if any(op_local(a_) == dl for a_ in tt["args"]):
+                    cand += [op_local(a_) for a_ in tt["args"] if op_local(a_) is not None and op_local(a_) != dl]
+            if any(common.role_roots(R, l_, roles["before_t"]) or any(common.role_roots(R, x, roles["before_t"]) for x in rba.ref_chain(l_)) for l_ in cand):
+                ok = True
     ctx.ob("R11.6", "%s|direct-mod-test-reads-before_t" % R.key, ok, where=R.span, detail="the modification-time comparison uses the pre-build stat handed down from BuildJob::start" if ok else "direct-modification test does not use the pre-build stat")
     ok = bool(roles["_up_before_t"]) and bool(roles["before_t"])
     ctx.ob("R11.6", "%s|before_t-handed-to-recorder" % SS.key, bool(ok), where=SS.span, detail="start_self's pre-build stat parameter is captured by the result recorder and passed to record_new_state")
@@ -300,6 +331,143 @@ def run(ctx):
 
 _FOLLOW = r"std::path::Path::(exists|is_file|metadata)|std::fs::metadata"
 _NOFOLLOW = r"std::path::Path::(symlink_metadata|is_symlink)|std::fs::symlink_metadata"
+
+
+
+def guard_by_truth_assignment(ctx, prog, SS, ex_all, z1, fd, forks, dir_sw=None, e_kind=None, rest=None):
+    """R11.1 when the leave-alone guard is not written as one nested condition (a `leave_alone` flag computed by a
+    match, the `override || !generated` part hoisted into a local, extra assertions on the same fields): the four atoms
+    - E the target exists, D it is a directory, O sf.is_override, G sf.is_generated() - are located wherever they are
+    tested, and for each truth assignment under which the guard must hold (E, !D, O) and (E, !D, !O, !G) every branch on
+    an atom is forced to that value (the complementary edges are cut); on the feasible paths (core.FAL: a flag computed
+    on one path and tested later is followed) that remain, no build step and no mutator may be reachable, every Ok
+    return is the ready success, and - for (E, !D, O) - nothing clears the override flag and set_static is not reached."""
+    ba = BA.of(SS)
+    fa = FAL.of(SS)
+    key = SS.key
+    real_ctx = ctx
+
+    class _Buf:
+        """obligations of the fallback are held back: established -> recorded; not established -> `cannot decide` (the
+        shape is one the exact rule does not know, and a flag computed through values FAL does not follow makes
+        paths look feasible that are not), never a VIOLATION on the strength of the approximation"""
+        def __init__(self):
+            self.items = []
+        def ob(self, rid, k, ok, **kw):
+            self.items.append((rid, k, bool(ok), kw))
+            return ok
+        def rule(self, *a_, **k_):
+            return real_ctx.rule(*a_, **k_)
+        def floor(self, *a_, **k_):
+            return real_ctx.floor(*a_, **k_)
+        def where(self, *a_, **k_):
+            return real_ctx.where(*a_, **k_)
+        def __getattr__(self, n):
+            return getattr(real_ctx, n)
+    ctx = _Buf()
+    Es = [(sw, t_t, f_t) for (sw, t_t, f_t, kind) in ex_all]
+    kinds = {kind for (_, _, _, kind) in ex_all}
+    dirtests = dir_test_functions(prog)
+    Ds = dir_sw if dir_sw is not None else [(sw, t_t, f_t) for (sw, t_t, f_t, cbb) in ba.switches_on_call("|".join(re.escape(k) for k in sorted(dirtests)))]
+    Os = common.field_switches(SS, "state::File.is_override")
+    Gs = [(sw, t_t, f_t) for (sw, t_t, f_t, cbb) in ba.switches_on_call(r"state::File::is_generated")]
+    if not ctx.ob("R11.1", "%s|guard-exists-test" % key, bool(Es), where=SS.span, detail="%d tests of the target's presence located" % len(Es)):
+        return
+    guard_E = [e for e in ex_all if z1 and ba.path([e[0]], z1, incl=True) is not None]
+    ctx.rule("R11.10", "the existence test of the leave-alone guard does not follow symbolic links (lstat / symlink_metadata / the recorded-stamp reader), so that a user's dangling symlink counts as an existing file redo did not produce")
+    nf = all(k == "nofollow" for (_, _, _, k) in guard_E) and bool(guard_E)
+    ctx.ob("R11.10", "%s|guard-existence-test-is-lstat" % key, nf, where=ctx.where(SS, guard_E[0][0]) if guard_E else SS.span,
+           detail="the guard tests the directory entry itself" if nf else "a test of the target's presence ahead of the build follows symbolic links")
+    ok = bool(Ds) and bool(Os) and bool(Gs)
+    if not ctx.ob("R11.1", "%s|guard-nesting" % key, ok, where=SS.span,
+                  detail="guard atoms located (exists=%d dir=%d override=%d generated=%d); decided by truth assignment" % (len(Es), len(Ds), len(Os), len(Gs)) if ok else
+                  "guard structure not recognised: dir=%d override=%d generated=%d" % (len(Ds), len(Os), len(Gs))):
+        return
+
+    def force(sws, val):
+        return {(sw, f_t if val else t_t) for (sw, t_t, f_t) in sws if t_t != f_t}
+    bad_targets = z1 + fd + forks
+    muts = [i for i in ba.all_calls() if is_mutator_call(SS.blocks[i]["term"])]
+    rets = common.ok_returns(SS) or ba.returns()
+    readys = sorted({b_ for i in ba.calls(r"core::future::ready::ready") for b_ in common.const_int_entry_blocks(SS, i, 0, 0)})
+    assigns = {"override": force(Es, True) | force(Ds, False) | force(Os, True),
+               "not-generated": force(Es, True) | force(Ds, False) | force(Os, False) | force(Gs, False)}
+    for nm, cuts in assigns.items():
+        common.not_reach_fl(ctx, "R11.1", "%s|then-side(%s)-builds-nothing" % (key, nm), SS, [0], bad_targets + muts,
+                           "the leave-alone side reaches neither zap_deps1, the .do search, the fork nor a mutator", "an existing file redo did not produce can still be rebuilt/overwritten", cut_edges=cuts)
+    allcuts = None
+    ok_ret = True
+    for nm, cuts in assigns.items():
+        if fa.path([0], rets, avoid=frozenset(readys), cut_edges=frozenset(cuts), incl=True) is not None:
+            ok_ret = False
+    ctx.ob("R11.1", "%s|then-side-returns-success" % key, ok_ret and bool(readys), where=SS.span,
+           detail="the leave-alone side returns a ready EXIT_SUCCESS" if ok_ret and readys else "the leave-alone side does not return success")
+    # positive controls: the guard does not swallow everything
+    goodcuts = force(Es, True) | force(Ds, False) | force(Os, False) | force(Gs, True)
+    ctx.ob("R11.1", "%s|build-steps-dominated-by-guard" % key, bool(forks) and fa.path([0], z1, cut_edges=frozenset(goodcuts), incl=True) is not None and
+           fa.path([0], z1, cut_edges=frozenset(force(Es, False)), incl=True) is not None, where=SS.span,
+           detail="a generated, not overridden target and a missing target still reach the build steps")
+    reach_o = fa.reach_incl([0], cut_edges=frozenset(assigns["override"]))
+    statics = [i for i in ba.calls(r"state::File::set_static") if i in reach_o and not (z1 and ba.dominates(z1[0], i))]
+    ctx.ob("R11.1", "%s|set_static-only-if-not-override" % key, not statics, where=ctx.where(SS, statics[0]) if statics else SS.span,
+           detail="set_static (which clears the override flag) is not reachable for an overridden file" if not statics else "an overridden target is turned back into a plain source, losing the override flag")
+    clearers = override_clearers(ctx, prog)
+    so_ = set(ba.calls(r"state::File::set_override"))
+    clear_calls = [i for i in ba.all_calls() if i not in so_ and any(p_ in clearers for p_ in callee_paths(SS.blocks[i]["term"]))]
+    ctx.floor("R11.1", "File methods that clear the override flag", len(clearers), 3)
+    hit = [c for c in clear_calls if c in reach_o]
+    ctx.ob("R11.1", "%s|override-side-keeps-the-flag" % key, not hit, where=ctx.where(SS, hit[0]) if hit else SS.span,
+           detail="for an overridden file nothing clears the override flag" if not hit else
+           "for an overridden file a File method that clears is_override (set_changed via update_stamp, set_static, ...) is called: the flag is lost and a later redo overwrites the user's file")
+    ctx.rule("R11.13", "start_self, before the leave-alone guard: a File method that clears is_override (update_stamp -> set_changed, set_static, ...) is followed by set_override on every path to the guard - refreshing the stamp of an already overridden file after a second manual edit must not turn it back into redo's own output, which the guard then lets the .do overwrite")
+    ctx.ob("R11.13", "%s|no-flag-clearing-before-the-guard" % key, not hit, where=ctx.where(SS, hit[0]) if hit else SS.span,
+           detail="nothing clears the override flag of an overridden file" if not hit else "the override flag is cleared ahead of the guard")
+    ctx.rule("R11.12", "the guard excepts directories (a target may be a directory) by looking at the entry itself, not through it: a symbolic link to a directory that the user made is a file redo did not produce, and is left alone")
+    for (sw, t_t, f_t) in Ds:
+        cbbs = [c for (s_, _, _, c) in ba.switches_on_call("|".join(re.escape(k) for k in sorted(dirtests))) if s_ == sw]
+        kinds_ = {dirtests[q] for c in cbbs for q in callee_paths(SS.blocks[c]["term"]) if q in dirtests}
+        if kinds_:
+            ctx.ob("R11.12", "%s|guard-directory-test-is-lstat" % key, kinds_ == {"nofollow"}, where=ctx.where(SS, sw),
+                   detail="the directory test does not follow symbolic links" if kinds_ == {"nofollow"} else "the directory test follows symbolic links")
+    exact = ("R11.10", "R11.12")
+    failed = [(rid_, k_) for (rid_, k_, ok_, kw_) in ctx.items if not ok_ and rid_ not in exact]
+    if failed:
+        from facts import AnchorError
+        raise AnchorError("R11.1: the leave-alone guard of %s is not written in a shape the exact rule knows, and the truth-assignment check could not establish: %s" % (key, ", ".join(k_.split("|", 1)[1] for _, k_ in failed)))
+    for (rid_, k_, ok_, kw_) in ctx.items:
+        real_ctx.ob(rid_, k_, ok_, **kw_)
+    ctx = real_ctx
+    # the guard's own presence test, for the rules that speak of "before the guard": the one closest to the build steps
+    gsw = [e[0] for e in guard_E]
+    E = next((g for g in gsw if all(ba.dominates(o, g) for o in gsw)), gsw[-1] if gsw else Es[0][0])
+    # R11.2 speaks of "before the guard"; with the guard located only approximately its failures are `cannot decide` too
+    buf = _Buf()
+    _r11_rest(buf, prog, SS, E)
+    failed = [(rid_, k_) for (rid_, k_, ok_, kw_) in buf.items if not ok_ and rid_ == "R11.2" and SS.key in k_]
+    if failed:
+        from facts import AnchorError
+        raise AnchorError("R11.2: with the leave-alone guard of %s located only approximately, not established: %s" % (key, ", ".join(k_.split("|", 1)[1] for _, k_ in failed)))
+    for (rid_, k_, ok_, kw_) in buf.items:
+        real_ctx.ob(rid_, k_, ok_, **kw_)
+
+
+def override_clearers(ctx, prog):
+    clearers = set()
+    for b in prog.bodies.values():
+        if not b.key.startswith("state::File::"):
+            continue
+        for _, _, st_ in field_writes(b, r"state::File\.is_override"):
+            c_ = op_const(st_["rv"].get("op")) if st_["rv"]["k"] == "use" else None
+            if c_ is not None and c_.get("bool") is False:
+                clearers.add(b.key)
+    changed_ = True
+    while changed_:
+        changed_ = False
+        for b in prog.bodies.values():
+            if b.key.startswith("state::File::") and b.key not in clearers and any(t == k_ for k_ in clearers for (_, t, kind) in ctx.cg.site_edges.get(b.key, []) if kind == "direct"):
+                clearers.add(b.key)
+                changed_ = True
+    return clearers
 
 
 def dir_test_functions(prog):
